@@ -390,6 +390,15 @@ func genCohortMember(t *rapid.T, d D) D {
 		return DFin(n.Neg, n.Coef, genExp(t))
 	}
 	co := cohort(n)
+	// the two ends of the cohort matter most: the shortest encoding (what Canonical and the parser produce) and
+	// the longest one (34 or 35 digits: every "at most 34 digits" assumption and every room-for-one-more-digit
+	// test is decided there)
+	switch ir(t, 0, 5, "memberEnd") {
+	case 0:
+		return co[0]
+	case 1:
+		return co[len(co)-1]
+	}
 	return co[ir(t, 0, len(co)-1, "member")]
 }
 
